@@ -143,3 +143,242 @@ Proof.
   - rewrite reverse_is_rev, (channel_spec ydmd (o_start o) (o_end o) D Hss Hal Hco Hnn Hw). reflexivity.
   - rewrite (channel_spec ydmd (o_start o) (o_end o) D Hss Hal Hco Hnn Hw). reflexivity.
 Qed.
+
+(* ---- the walk: soundness for every variant *)
+Definition files_of (es : list (word * node)) : list word :=
+  map fst (filter (fun e : word * node => negb (is_dir (snd e))) es).
+Definition props_of (es : list (word * node)) : list word :=
+  filter (matches listing_ci l_re_propfile) (files_of es).
+
+(* what may be listed below a node, as a path relative to it *)
+Inductive listed_ok (o : opts) : node -> word -> Prop :=
+| ok_prop es f pr :
+    In (f, File) es -> matches listing_ci l_re_propfile f = true ->
+    prop_regex (o_flags o) = Some pr -> matches listing_ci pr f = true ->
+    listed_ok o (Dir es) f
+| ok_data es r ydmd sub ses nm t :
+    props_of es <> [] ->
+    file_regex (existsb (matches listing_ci l_re_drfpropfile) (props_of es))
+               (existsb (matches listing_ci l_re_dmdpropfile) (props_of es)) (o_flags o) = Some (r, ydmd) ->
+    In (sub, Dir ses) es -> matches listing_ci l_re_subdir sub = true ->
+    In nm (map fst ses) -> match_time r nm = Some (Time t) ->
+    listed_ok o (Dir es) (join2 sub nm)
+| ok_below es d c p :
+    In (d, c) es -> listed_ok o c p -> listed_ok o (Dir es) (join2 d p).
+
+Fixpoint node_ind2 (P : node -> Prop) (Hf : P File) (Hg : P Gone)
+    (Hd : forall es, (forall nm c, In (nm, c) es -> P c) -> P (Dir es)) (t : node) : P t :=
+  match t with
+  | File => Hf
+  | Gone => Hg
+  | Dir es =>
+    Hd es ((fix go (l : list (word * node)) : forall nm c, In (nm, c) l -> P c :=
+              match l with
+              | [] => fun nm c (H : In (nm, c) []) => match H with end
+              | (nm0, c0) :: l' => fun nm c (H : In (nm, c) ((nm0, c0) :: l')) =>
+                  match H with
+                  | or_introl Heq => eq_ind c0 P (node_ind2 P Hf Hg Hd c0) c (f_equal snd Heq)
+                  | or_intror Hin => go l' nm c Hin
+                  end
+              end) es)
+  end.
+
+Lemma sort_words_in rv l x : In x (sort_words rv l) <-> In x l.
+Proof.
+  unfold sort_words. destruct rv; [rewrite <- in_rev|]; apply isort_in.
+Qed.
+
+Lemma files_of_in es f : In f (files_of es) <-> In (f, File) es.
+Proof.
+  unfold files_of. rewrite in_map_iff. split.
+  - intros ([f' n] & <- & H). apply filter_In in H as [H Hn]. destruct n; cbn in Hn; try discriminate. exact H.
+  - intro H. exists (f, File). split; [reflexivity|]. apply filter_In. split; [exact H|reflexivity].
+Qed.
+
+Lemma word_eqb_true a : forall b, word_eqb a b = true -> a = b.
+Proof.
+  induction a as [|x a IH]; destruct b as [|y b]; cbn; intro H; try discriminate; auto.
+  apply andb_true_iff in H as [Hx Hab]. apply Z.eqb_eq in Hx. f_equal; auto.
+Qed.
+
+Lemma assoc_in {B} k (l : list (word * B)) x : assoc k l = Some x -> In (k, x) l.
+Proof.
+  induction l as [|[k' y] l IH]; cbn; [discriminate|].
+  destruct (word_eqb k k') eqn:E; intro H.
+  - apply word_eqb_true in E. inversion H; subst. left. reflexivity.
+  - right. apply IH. exact H.
+Qed.
+
+Lemma seq_named_in l p : In p (fst (seq_named l)) ->
+  exists nm out e p', In (nm, (out, e)) l /\ In p' out /\ p = join2 nm p'.
+Proof.
+  induction l as [|[nm [out e]] l IH]; cbn; [intros []|].
+  destruct e as [e|]; cbn.
+  - intro H. apply in_map_iff in H as (p' & <- & Hp'). exists nm, out, (Some e), p'. auto.
+  - intro H. apply in_app_or in H as [H|H].
+    + apply in_map_iff in H as (p' & <- & Hp'). exists nm, out, None, p'. auto.
+    + destruct (IH H) as (nm' & out' & e' & p' & Hin & Hp' & ->). exists nm', out', e', p'. auto.
+Qed.
+
+Lemma yield_matching_in v o dirs props p :
+  In p (fst (fst (yield_matching v o dirs props))) ->
+  exists r ydmd sub ses nm t,
+    file_regex (existsb (matches listing_ci l_re_drfpropfile) props)
+               (existsb (matches listing_ci l_re_dmdpropfile) props) (o_flags o) = Some (r, ydmd) /\
+    In (sub, Dir ses) dirs /\ matches listing_ci l_re_subdir sub = true /\
+    In nm (map fst ses) /\ match_time r nm = Some (Time t) /\ p = join2 sub nm.
+Proof.
+  unfold yield_matching.
+  destruct (file_regex _ _ (o_flags o)) as [[r ydmd]|] eqn:Er; [|intros []].
+  destruct (classify_dirs r dirs) as [[subs others]|] eqn:Ec; [|intros []].
+  cbn [fst]. intro H. apply in_map_iff in H as ([t q] & <- & H). cbn [snd].
+  apply yield_channel_subset in H as (d & Hd & Hx).
+  apply (proj1 (isort_in sub_leb d subs)) in Hd.
+  destruct (classify_dirs_in r dirs subs others Ec) as [H1 _].
+  destruct (H1 d Hd) as (dn & n & c & Hin & Hm & _ & _ & Hf).
+  unfold F in Hx. rewrite Hf in Hx. destruct n as [|ses|]; try contradiction.
+  apply decorate_in in Hx as (nm & Hnm & -> & Hmt).
+  exists r, ydmd, dn, ses, nm, t. repeat split; auto. unfold matches. rewrite Hm. reflexivity.
+Qed.
+
+Lemma yield_matching_dirs v o dirs props e : In e (snd (yield_matching v o dirs props)) -> In e dirs.
+Proof.
+  unfold yield_matching.
+  destruct (file_regex _ _ (o_flags o)) as [[r ydmd]|]; [|auto].
+  destruct (classify_dirs r dirs) as [[subs others]|] eqn:Ec; [|auto].
+  cbn [snd]. apply (classify_dirs_in r dirs subs others Ec).
+Qed.
+
+Lemma walk_dir v o es :
+  walk v o (Dir es) =
+    let files := files_of es in
+    let dirs := filter (fun e : word * node => is_dir (snd e)) es in
+    let children := map (fun e : word * node => (fst e, walk v o (snd e))) es in
+    let any_props := props_of es in
+    let f := o_flags o in
+    let '(here, e, dirs') :=
+      match any_props with
+      | [] => ([], None, dirs)
+      | _ =>
+        let props := match prop_regex f with
+                     | Some pr => sort_words (o_reverse o) (filter (matches listing_ci pr) any_props)
+                     | None => []
+                     end in
+        if inc_drf f || inc_dmd f then
+          let '(out, e, dirs') := yield_matching v o dirs any_props in (props ++ out, e, dirs')
+        else (props, None, dirs)
+      end in
+    match e with
+    | Some x => (here, Some x)
+    | None =>
+      let names := if o_recursive o then sort_words (o_reverse o) (map fst dirs') else [] in
+      let r := seq_named (flat_map (fun nm => match assoc nm children with
+                                              | Some res => [(nm, res)]
+                                              | None => []
+                                              end) names) in
+      (here ++ fst r, snd r)
+    end.
+Proof.
+  cbn [walk]. unfold files_of, props_of.
+  assert (Hch : (fix go (l : list (word * node)) : list (word * (list word * option err)) :=
+                   match l with [] => [] | (nm, c) :: l' => (nm, walk v o c) :: go l' end) es
+                = map (fun e : word * node => (fst e, walk v o (snd e))) es).
+  { induction es as [|[nm c] es IH]; [reflexivity|]. cbn [map fst snd]. rewrite <- IH. reflexivity. }
+  rewrite Hch. reflexivity.
+Qed.
+
+Theorem walk_sound v o : forall t p, In p (fst (walk v o t)) -> listed_ok o t p.
+Proof.
+  intro t. induction t as [| |es IH] using node_ind2; intros p Hp; try (cbn in Hp; contradiction).
+  rewrite walk_dir in Hp. cbn zeta in Hp.
+  set (dirs := filter (fun e : word * node => is_dir (snd e)) es) in *.
+  set (children := map (fun e : word * node => (fst e, walk v o (snd e))) es) in *.
+  (* the three sources of a listed path *)
+  assert (Hprops : forall pr q, prop_regex (o_flags o) = Some pr ->
+            In q (sort_words (o_reverse o) (filter (matches listing_ci pr) (props_of es))) -> listed_ok o (Dir es) q).
+  { intros pr q Hpr Hq. apply sort_words_in, filter_In in Hq as [Hq Hm].
+    unfold props_of in Hq. apply filter_In in Hq as [Hq Hm2]. apply files_of_in in Hq.
+    eapply ok_prop; eauto. }
+  assert (Hdata : props_of es <> [] -> forall q, In q (fst (fst (yield_matching v o dirs (props_of es)))) -> listed_ok o (Dir es) q).
+  { intros Hne q Hq. apply yield_matching_in in Hq as (r & ydmd & sub & ses & nm & t & Hr & Hin & Hm & Hnm & Hmt & ->).
+    unfold dirs in Hin. apply filter_In in Hin as [Hin _]. eapply ok_data; eauto. }
+  assert (Hchild : forall names q,
+            In q (fst (seq_named (flat_map (fun nm => match assoc nm children with Some res => [(nm, res)] | None => [] end) names))) ->
+            listed_ok o (Dir es) q).
+  { intros names q Hq. apply seq_named_in in Hq as (nm & out & e & p' & Hin & Hp' & ->).
+    apply in_flat_map in Hin as (nm' & _ & Hin). destruct (assoc nm' children) as [res|] eqn:Ea; [|contradiction].
+    destruct Hin as [Hin|[]]. injection Hin as Hn Hres. subst nm' res. apply assoc_in in Ea. unfold children in Ea.
+    apply in_map_iff in Ea as ([nm0 c] & Heq & Hc). cbn [fst snd] in Heq. injection Heq as Hn Hw. subst nm0.
+    eapply ok_below; [exact Hc|]. eapply IH; [exact Hc|]. rewrite Hw. exact Hp'. }
+  destruct (props_of es) as [|pf0 pfs] eqn:Eprops.
+  - (* not a channel directory *)
+    cbn [fst snd app] in Hp. eapply Hchild. exact Hp.
+  - assert (Hne : pf0 :: pfs <> []) by discriminate.
+    destruct (inc_drf (o_flags o) || inc_dmd (o_flags o)).
+    + destruct (yield_matching v o dirs (pf0 :: pfs)) as [[out e] dirs'] eqn:Ey.
+      assert (Hout : forall q, In q out -> listed_ok o (Dir es) q).
+      { intros q Hq. apply (Hdata Hne). exact Hq. }
+      assert (Hhere : forall q, In q (match prop_regex (o_flags o) with
+                                      | Some pr => sort_words (o_reverse o) (filter (matches listing_ci pr) (pf0 :: pfs))
+                                      | None => [] end ++ out) -> listed_ok o (Dir es) q).
+      { intros q Hq. apply in_app_or in Hq as [Hq|Hq]; [|auto].
+        destruct (prop_regex (o_flags o)) as [pr|] eqn:Epr; [|contradiction]. eapply Hprops; eauto. }
+      destruct e as [x|]; cbn [fst] in Hp; [auto|].
+      apply in_app_or in Hp as [Hp|Hp]; [auto|]. eapply Hchild. exact Hp.
+    + assert (Hhere : forall q, In q (match prop_regex (o_flags o) with
+                                      | Some pr => sort_words (o_reverse o) (filter (matches listing_ci pr) (pf0 :: pfs))
+                                      | None => [] end) -> listed_ok o (Dir es) q).
+      { intros q Hq. destruct (prop_regex (o_flags o)) as [pr|] eqn:Epr; [|contradiction]. eapply Hprops; eauto. }
+      cbn [fst] in Hp. apply in_app_or in Hp as [Hp|Hp]; [auto|]. eapply Hchild. exact Hp.
+Qed.
+
+(* ---- never a tmp. file: the last component of every listed path *)
+Definition has_basename (p base : word) : Prop := p = base \/ exists d, p = join2 d base.
+
+Lemma has_basename_below d p base : has_basename p base -> has_basename (join2 d p) base.
+Proof.
+  intros [->|(d' & ->)]; right; [exists d; reflexivity|].
+  exists (join2 d d'). unfold join2. rewrite <- app_assoc. reflexivity.
+Qed.
+
+Lemma prop_regex_cases f pr : prop_regex f = Some pr ->
+  pr = l_re_drfpropfile \/ pr = l_re_dmdpropfile \/ pr = l_re_propfile.
+Proof.
+  unfold prop_regex. destruct (eff_drfp f && eff_dmdp f), (eff_drfp f), (eff_dmdp f); intro H; inversion H; auto.
+Qed.
+
+Theorem listed_never_tmp o t p : listed_ok o t p ->
+  exists base, has_basename p base /\ starts_with (W "tmp.") base = false.
+Proof.
+  induction 1 as [es f pr Hin Hm Hpr Hm2 | es r ydmd sub ses nm t Hne Hr Hin Hm Hnm Hmt | es d c p Hin Hok IH].
+  - exists f. split; [left; reflexivity|].
+    destruct (starts_with (W "tmp.") f) eqn:E; [|reflexivity].
+    unfold matches, listing_ci in Hm2.
+    rewrite (prop_file_never_tmp pr f (prop_regex_cases _ _ Hpr) E) in Hm2. discriminate.
+  - exists nm. split; [right; exists sub; reflexivity|].
+    eapply match_time_not_tmp; [eapply file_regex_cases; eauto|eauto].
+  - destruct IH as (base & Hb & Ht). exists base. split; [apply has_basename_below; exact Hb|exact Ht].
+Qed.
+
+Corollary lsdrf_never_tmp v o t p : In p (fst (lsdrf v o t)) ->
+  exists base, has_basename p base /\ starts_with (W "tmp.") base = false.
+Proof.
+  unfold lsdrf, ilsdrf. cbn [fst snd app]. intro H. eapply listed_never_tmp. eapply walk_sound. exact H.
+Qed.
+
+(* ---- properties files by their own flags: the head of a channel directory's listing *)
+Theorem props_by_flags v o es : props_of es <> [] ->
+  exists rest, fst (walk v o (Dir es)) =
+    match prop_regex (o_flags o) with
+    | Some pr => sort_words (o_reverse o) (filter (matches listing_ci pr) (props_of es))
+    | None => []
+    end ++ rest.
+Proof.
+  intro Hne. rewrite walk_dir. cbn zeta.
+  destruct (props_of es) as [|pf0 pfs] eqn:E; [congruence|].
+  destruct (inc_drf (o_flags o) || inc_dmd (o_flags o)).
+  - destruct (yield_matching v o _ (pf0 :: pfs)) as [[out e] dirs'].
+    destruct e as [x|]; cbn [fst]; [exists out; reflexivity|].
+    rewrite <- app_assoc. eexists. reflexivity.
+  - cbn [fst]. eexists. reflexivity.
+Qed.
